@@ -139,6 +139,7 @@ func zzH_C09_account() {
 //verif:mode int
 //verif:replace $M/rlp.EncodeToBytes zzEncodeStub
 func zzH_C09_validator() {
+	zzValTwoDlg = true
 	s, d := zzValState()
 	// two withdraw records already queued by earlier transactions
 	for i := 0; i < 2; i++ {
@@ -172,6 +173,9 @@ func zzH_C09_validator() {
 				zzverif.Assume(false)
 			}
 			zzverif.Assume(new(big.Int).Add(df.Token, delta).Sign() >= 0)
+			if zzverif.Bool("d.all") {
+				delta.Neg(df.Token) // complete withdrawal: the validator leaves the delegator's list
+			}
 		}
 		s.UpdateDelegation(d, cur, delta)
 	case 3:
